@@ -1,6 +1,6 @@
 (* C03 — tokenizing any text terminates and consumes the whole input.
    Statements only; proofs in Proofs/LexerP.v, Proofs/ParserP.v, Proofs/TablesP.v. *)
-From RT Require Import Model.Lexer Model.Parser Proofs.LexerP Proofs.ParserP Proofs.TablesP Generated.
+From RT Require Import Model.Lexer Model.Parser Proofs.LexerP Proofs.ParserP Proofs.TablesP Proofs.StreamP Generated.
 Open Scope N_scope.
 
 (* what the theorems assume of unicode.IsSpace / unicode.IsDigit (true of Go's tables, below) *)
@@ -73,3 +73,17 @@ Print Assumptions C03_tables.
 (* non-vacuity: the initial state of every input satisfies the invariant and the parser precondition *)
 Example C03_initial_state_ok : forall s, inv go_is_digit (rd (lx_new s)) /\ pwf (ps_new s).
 Proof. intros s. split; [left; reflexivity|]. right; left; reflexivity. Qed.
+
+(* all of the above composed, with Go's own tables and no hypothesis left: for every rune sequence, parser.Read driven
+   to end of stream (read_all — the very term the correspondence evaluates against the code) answers with tokens of
+   defined kinds only, then end of stream, after at most 3*|s|+3 tokens, with fuel linear in the input *)
+Theorem C03_read_stream_go : forall bc (s : list N),
+  exists toks row erow,
+    read_all go_is_space go_is_digit go_is_upper go_is_lower fixed_lex bc (3 * length s + 4) (3 * length s + 7) (ps_new s)
+      = Some (toks ++ [(REos, row, erow)]) /\
+    Forall is_tok toks /\ (length toks <= 3 * length s + 3)%nat.
+Proof.
+  intros bc. destruct C03_go_unicode_ok as (H1 & H2 & H3 & H4).
+  exact (read_all_total go_is_space go_is_digit go_is_upper go_is_lower bc H1 H2 H3 H4).
+Qed.
+Print Assumptions C03_read_stream_go.
